@@ -565,6 +565,10 @@ def run(ctx, report):
     else:
         R4.violation('_dis:bytes', '_dis:bytes', 'raw bytes are no longer the prefix of the input that was consumed', where(arch, dis))
 
+    # -------------------------------------------------------------- D5 AT&T mnemonic reader is total
+    R5 = report.rule('C10.D5', 'mnemo_from_att, evaluated on every mnemonic-like name x operand shape, returns or raises the documented ValueError', floor=3000)
+    from_att_total(ctx, R5, arch)
+
 
 def printed_names(X, c):
     """Mnemonics __str__ can print for a variant (mandatory-prefix suffix scheme expanded)."""
@@ -621,6 +625,79 @@ def operand_count(X, c):
     return n
 
 
+def from_att_total(ctx, R, arch):
+    """Partial evaluation of mnemo_from_att over the names an AT&T line can carry: every Intel mnemonic, every entry of the AT&T tables,
+    each extended by one suffix letter of the suffix tables and truncated by one letter (two letters / two suffixes in the thorough tier),
+    with 0..3 operands of every kind.  The function is table-driven over (name, operand kinds) only, so this enumerates its paths."""
+    from ..archinterp import arch_interp
+    from ..lifter import LiftError, LiftUnknown
+    X, I = arch_interp(ctx)
+    afs, E = X.afs, X.env
+    fa = I.g.get('mnemo_from_att')
+    if fa is None:
+        raise AnalysisError('mnemo_from_att not found')
+    t = E['att_mnemo_table']
+    names = set(n for n in X.lookup if isinstance(n, str) and '#' not in n)
+    letters, suffixed = set(), set(('movs', 'movz', 'cmov', 'set', 'j'))
+    for k, v in t.items():
+        if isinstance(v, dict):
+            names |= set(v)
+        else:
+            names |= set(x for x in v if isinstance(x, str))
+            if v and isinstance(v[0], dict):
+                letters |= set(v[0])
+                suffixed |= set(x for x in v if isinstance(x, str))
+    if len(names) < 500 or len(letters) < 4:
+        raise AnalysisError('AT&T name universe shrank: %d names, suffix letters %s' % (len(names), sorted(letters)))
+    thorough = ctx.tier == 'thorough'
+    cands = set(names)
+    for n in names:
+        cands.add(n[:-1])
+        for l in letters:
+            cands.add(n + l)
+        if thorough:
+            cands.add(n[:-2])
+            if n in suffixed:
+                for l in letters:
+                    for l2 in letters:
+                        cands.add(n + l + l2)
+    cands.discard('')
+
+    def reg(n, sz=afs.u32):
+        return {afs.ad: False, afs.size: sz, n: 1}
+
+    def mem():
+        return {afs.ad: True, afs.size: afs.u32, 1: 1, afs.imm: 4}
+
+    def imm():
+        return {afs.ad: False, afs.imm: 4}
+    shapes = [('', []), ('r,r', [reg(1), reg(2)]), ('m', [mem()]), ('i', [imm()])]
+    if thorough:
+        shapes += [('r', [reg(1)]), ('r,m', [reg(1), mem()]), ('m,r', [mem(), reg(1)]), ('i,r', [imm(), reg(1)]), ('i,m', [imm(), mem()]),
+                   ('i,r,r', [imm(), reg(1), reg(2)]), ('r8,r', [reg(1, afs.u08), reg(2)])]
+    n_eval = 0
+    bad = {}
+    for name in sorted(cands):
+        for sname, args in shapes:
+            n_eval += 1
+            try:
+                r = I.run(fa, [[], name, [dict(a) for a in args], 'att_syntax'])
+            except LiftUnknown as e:
+                raise AnalysisError('mnemo_from_att outside the modelled subset on %r (%s): %s' % (name, sname, e))
+            for dec, res in r:
+                if isinstance(res, LiftError) and res.exc != 'ValueError':
+                    bad.setdefault((res.exc, norm(res.node)[:70] if getattr(res, 'node', None) is not None else res.msg[:70]), []).append((name, sname))
+    badnames = set(nm for lst in bad.values() for nm, _ in lst)
+    for name in sorted(cands - badnames):
+        R.ok(name)
+    R.note('%d names x %d operand shapes = %d evaluations of mnemo_from_att' % (len(cands), len(shapes), n_eval))
+    for (exc, at), lst in sorted(bad.items()):
+        nm, sh = lst[0]
+        R.violation('from_att:%s:%s' % (exc, at), 'from_att:%s:%s' % (exc, at),
+                    'mnemo_from_att fails with %s at `%s` for %d inputs, e.g. mnemonic %r with operands (%s)' % (exc, at, len(lst), nm, sh),
+                    where(arch, arch.func('mnemo_from_att')), witness="asm_att(%r ...) -> %s" % (nm, exc))
+
+
 MUTANTS = [
     ('rekey-while-iterating', 'miasmx/arch/ia32_arch.py', "                    for x in list(tmp_order[1]):", "                    for x in tmp_order[1]:", 'C10.D3'),
     ('dis-new-raise', 'miasmx/arch/ia32_arch.py', "            elif afs == reg:\n                mafs = dict(x86mndb.get_afs_re(c&(0xFF^mask_reg)))\n",
@@ -633,5 +710,6 @@ MUTANTS = [
     ('asm-typeerror', 'miasmx/arch/ia32_arch.py', '                            raise ValueError("sw in r_eax zarb")', '                            raise TypeError("sw in r_eax zarb")', 'C10.D3'),
     ('sd-new-value', 'miasmx/arch/ia32_arch.py', "addop(\"fstp\",  [0xDB],             d7,    no_rm         , {}                 ,{sd:'fp80'}", "addop(\"fstp\",  [0xDB],             d7,    no_rm         , {}                 ,{sd:'fp96'}", 'C10.D'),
     ('loop-noprogress', 'miasmx/arch/ia32_arch.py', "            while True:\n                c = ord(bin.readbs())\n                read_bytes.append(c)\n", "            c = ord(bin.readbs())\n            while True:\n                read_bytes.append(c)\n", 'C10.D4'),
+    ('from-att-suffix-keyerror', 'miasmx/arch/ia32_arch.py', "        if name[:-1] in att_mnemo_table[table] \\\n                and name[-1] in att_mnemo_table[table][0]:", "        if name[:-1] in att_mnemo_table[table]:", 'C10.D5'),
     ('str-args2', 'miasmx/arch/ia32_arch.py', "            if self.m.name in float_st_mnemo:\n                args = [ st, args[0] ]", "            if self.m.name in float_st_mnemo:\n                args = [ st, args[1] ]", 'C10.D2'),
 ]
